@@ -279,7 +279,7 @@ def element_cases(els):
         if el.isotopes:
             iso = el[rng.choice(el.isotopes)]
             others.append(iso)
-            if el.ions and (el.number != 1 or iso.isotope == 1):
+            if el.ions:
                 others.append(iso.ion[rng.choice(el.ions)])
         for a in others:
             xs = rng.sample(nodes_k, min(3, len(nodes_k))) + rng.sample(inner_k, min(3, len(inner_k))) + outside[:2]
@@ -361,12 +361,14 @@ def has_dt_ion(seq):
     return any(core.ision(a) and a.symbol in ("D", "T") for a in flat_atoms(seq))
 
 
-def compound_group(els, n_comp, stats):
+def compound_group(els, n_comp, stats, extra=()):
     pool = GPool(T, rng, els)
     qs, descr = [], []
     E0, E1 = 0.01, 30.0
-    for _ in range(n_comp):
-        seq = pool.nested(rng.randint(0, 1), exact=False, width=3)
+    todo = list(extra) + [None] * n_comp
+    for seq in todo:
+        if seq is None:
+            seq = pool.nested(rng.randint(0, 1), exact=False, width=3)
         if rng.random() < 0.5:
             dens, nat = round(rng.uniform(0.05, 25.0), 3), None
         else:
@@ -393,8 +395,8 @@ def compound_group(els, n_comp, stats):
         qs.append("(QSld %s true %s %s)" % (hdr, ef(w), enc_pair(sld_call(seq, dens, nat, True, w))))
         qs.append("(QSld %s false %s %s)" % (hdr, ef(35.0), enc_pair(sld_call(seq, dens, nat, False, 35.0))))
         stats["sld"] += 2
-        if has_dt_ion(seq):
-            continue            # ValueError on every path (reported by the direct statements)
+        if isinstance(sld_call(seq, dens, nat, False, xs[0]), Exception):
+            continue            # raises on every path (reported by the direct statements)
         vec = xs[:2] + [0.004, 31.0]
         qs.append("(QSldVec %s false %s %s)" % (hdr, enc(vec), enc_pair(sld_call(seq, dens, nat, False, np.array(vec)))))
         stats["sld_vec"] += 1
@@ -441,7 +443,9 @@ def compound_cases(els):
         # hydrogen brings D and T and their ions
         if g == 0 and all(e.number != 1 for e in grp):
             grp = grp[:3] + [T.H]
-        c, m = compound_group(grp, 5 if TIER == "quick" else 8, stats)
+        # the ions of the named hydrogen isotopes, always
+        extra = [((1, T.D.ion[1]), (2.5, T.T.ion[-1]), (1, T.H))] if g == 0 else []
+        c, m = compound_group(grp, (4 if g == 0 else 5) if TIER == "quick" else 8, stats, extra)
         cases.append(c)
         meta.append(m)
     return cases, meta, stats
